@@ -189,6 +189,12 @@ class PSub(PNode):
         _count(self, "total_u")
         return sum(k.value for k in self.kids)
 
+    #: ... and a cached getter by a cached one that builds on the inherited
+    #: (cached) computation
+    @cached_property
+    def _get_own(self):
+        return super()._get_own() + 1000
+
 
 def recompute(o, name):
     d = o.__dict__
@@ -199,7 +205,7 @@ def recompute(o, name):
     if name in ("first", "selval"):
         return child.value if child is not None else -1
     if name == "own":
-        return o.value * 2
+        return o.value * 2 + (1000 if isinstance(o, PSub) else 0)
     if name == "cset":
         return o.value + 100
     if name == "deep":
